@@ -511,8 +511,10 @@ def evalAsElement (W : World) : Nat → Ctx → St → Str → List Attr → Lis
     let vFor := getAttr attrs (S "v-for")
     if vFor != [] then evalFor W f ctx st tag attrs kids vFor
     else if tag == S "template" then
+      -- a chain member that is an include (or a component tag rewritten to one) includes its component (fix: conditional include)
+      if hasAttr attrs (S "include") then evalTemplate W f ctx st attrs kids
       -- bound attributes are set in the current scope; no pipe interpreter on this path
-      evalList W f ctx { st with stack := setTemplateBound W.P attrs st.stack } kids
+      else evalList W f ctx { st with stack := setTemplateBound W.P attrs st.stack } kids
     else evalPlain W f ctx st tag attrs kids
 
 /-- `evalVFor`: the loop, and an immediately following v-else sibling when the loop produced nothing -/
